@@ -58,7 +58,7 @@ ASSUMPTIONS = [
     'reduced in long double',
     'normalisation = (v - mean(kept)) / std(kept), kept = iterative (<= 5 passes) 3-sigma clip about the median; compared '
     'only if no sample is within 64 eps (|median| + 3 std) of a clip threshold (else undecidable, counted) and std(kept) > 0; '
-    'tolerance 4 n eps (|v| + |mean|) / std',
+    'tolerance (4 n + 32) eps (|v| + |mean|) / std (mean and std of n samples accumulated at the data precision)',
     'the resolution of a Spectrum / TimeSeries along the integrated-out axis is not demanded (deliberately dt*tchans / '
     'df*fchans), nor the TimeSeries frequency label or the Spectrum time label',
     't_start compared to 1e-4 s (a pass through MJD is allowed), source_name after decoding bytes',
@@ -171,7 +171,7 @@ def _bounds(rng, F):
 
 def gen_cases(seed, tier):
     rng = np.random.default_rng([seed, 17])
-    n = 2112 if tier == 'quick' else 84480
+    n = 2112 if tier == 'quick' else 126720
     cases = []
     for i in range(n):
         op = OPS[i % 4]
@@ -628,7 +628,7 @@ def check_normalised(R, got, raw, key, **detail):
     if keep.sum() < n:
         R.bucket('integrate:clip-active')
     want = (raw.astype(float) - m) / s
-    tol = 4 * n * eps * (np.abs(raw.astype(float)) + abs(m)) / s + 1e-300
+    tol = (4 * n + 32) * eps * (np.abs(raw.astype(float)) + abs(m)) / s + 1e-300
     got = np.asarray(got)
     if not R.check(got.shape == want.shape, key + ':length', got=list(got.shape), want=list(want.shape), **detail):
         return
